@@ -30,7 +30,43 @@ BT = 'ic_btc_canister::blocktree::BlockTree'
 GUB = UB + 'GenericUnstableBlocks'
 
 
+def delta_records_all(ctx, rule='R3'):
+    """the per-block delta (removed / added outpoints by address) that balance and UTXO queries replay
+    records every input / output whose script has an address form: the two pushes are conditional only on
+    the loops, the null-outpoint skip, the lookups and `Address::from_script` being Ok"""
+    prog = ctx.prog
+    from sa import pat as P
+    from sa.expr import ex, cond_exprs, walk, show
+    f = ctx.fn(rule, 'ic_btc_canister::unstable_blocks::outpoints_cache::insert_outpoints')
+    if not f:
+        return
+    e = ex(prog, f)
+
+    def plain(c):
+        if c[0] == 'is':
+            return P.call('*::next', P.anything)(c[1]) or (tuple(c[2]) == ('Ok',) and P.call('*::Address::from_script', P.anything, P.anything)(c[1]))
+        if c[0] == 'hidden':
+            return any(isinstance(x, tuple) and x[0] == 'call' and x[1].rsplit('::', 1)[-1] in ('get_tx_out', 'get', 'get_utxo', 'ok_or_else', 'branch') for x in walk(c[1]))
+        return P.not_(P.call('*::is_null', P.anything))(c)
+    n = 0
+    for c in f.calls():
+        if c.cleanup or not c.matches('alloc::vec::Vec::push'):
+            continue
+        tgt = e.operand(c.args[0])
+        if not P.has(P.call('*::Address::from_script', P.anything, P.anything))(tgt):
+            continue
+        n += 1
+        extra = [k for k in cond_exprs(prog, f, c.bb) if not plain(k)]
+        which = 'removed' if P.has(P.call('*::is_null', P.anything))(('x', cond_exprs(prog, f, c.bb))) or any(P.not_(P.call('*::is_null', P.anything))(k) for k in cond_exprs(prog, f, c.bb)) else 'added'
+        ctx.check(not extra, rule, 'delta-records-every-address-' + ('input' if which == 'removed' else 'output'), c,
+                  'the %s-outpoints delta records every %s whose script has an address form' % (which, 'spent input' if which == 'removed' else 'created output'),
+                  'recording into the %s-outpoints delta also depends on %s: balance and UTXO queries that replay the delta miss those outpoints while the block is unstable'
+                  % (which, [show(k)[:90] if k[0] not in ('is', 'hidden') else (k[0], show(k[1])[:70]) for k in extra][:2]))
+    ctx.floor(rule, 'delta pushes in insert_outpoints', n, 2)
+
+
 def run(ctx):
+    delta_records_all(ctx)
     prog = ctx.prog
     # ---------------- R1 ------------------------------------------------------------------------
     require_callers(ctx, 'R1', 'callers:new_cached', ['ic_btc_canister::blocktree::CachedBlock::new_cached'],
